@@ -416,7 +416,12 @@ def run_C06(tier, seed):
     progs = inplace_then_arith_programs(tier, rnd)
     for i in range(120 if tier == 'quick' else 2000):
         progs.append(exec_random_program(f'pq{i}', rnd, 7, extreme=False))
-    allev = evs + laws + progs
+    # arithmetic the repository's own unit tests perform (recorded by a pytest plugin that lives in /verif), judged like every other event
+    from . import repo_units
+    ru = repo_units.events(tier, seed)
+    repo_ev = [e for e in ru['events'] if e['ev'] == 'binop']
+    v.extra.update(repo_test_binop_events=len(repo_ev), repo_tests_run=ru['pytest_tail'])
+    allev = evs + laws + progs + repo_ev
     res = validate('Trace_Quantity', allev)
     v.states += res.states; v.transitions += res.transitions
     v.traces = len(allev); v.evaluations = len(allev)
@@ -430,7 +435,8 @@ def run_C06(tier, seed):
     v.rule = ('all ordered pairs of (13 kinds + int + float) x {+,-,*,/} (enumerated from the table TLC exports from Units.tla); unit choices: '
               + ('every pair for defined operations (capped at 40 sampled pairs per combination), two for TypeError combinations' if tier == 'quick'
                  else 'every unit pair of both operands')
-              + '; magnitudes of either sign and zero where legal; inverse laws on every same-family kind pair x unit pair; distinct = distinct operand tuples')
+              + '; magnitudes of either sign and zero where legal; inverse laws on every same-family kind pair x unit pair; plus every top-level + - * / the repository\'s own unit tests '
+              'perform on well-formed operands (one per (operator, kinds, units) bucket); distinct = distinct operand tuples')
     v.extra.update(kind_pair_op_combinations=combos, kind_pairs_exhaustive=True, unit_pair_choices=unit_pairs,
                    unit_pairs_exhaustive=(tier != 'quick'), binop_events=len(evs), law_events=len(laws))
     v.sample(evs[7]); v.sample(evs[len(evs) // 2]); v.sample(laws[0])
